@@ -33,10 +33,17 @@ pub fn apply(world: &mut World, path: &str, kind: &str, r: &mut Rng, allow_binar
         "filled-block" => {
             // a block that was allocated but never written, or overwritten by a repeated byte:
             // 64 B .. 64 KiB of one value
-            let fill = *r.pick(&[0u8, 0xFF, b' ', b'\n', b'.', b'#', b'"', b'(', b',', b'-', b'0', b'\'']);
             let len = 64usize << r.usize(11);
             let at = r.usize(bytes.len() + 1);
-            let block = vec![fill; len];
+            let block: Vec<u8> = if r.chance(1, 2) {
+                let fill = *r.pick(&[0u8, 0xFF, b' ', b'\n', b'.', b'#', b'"', b'(', b',', b'-', b'0', b'\'']);
+                vec![fill; len]
+            } else {
+                // ... or by a short record repeated over and over
+                const RECS: [&str; 16] = [". ", ".,", ".\t", ".\r", "(\n", "\" ", "' ", ":\n", "- ", "0x", "a:", ".a ", "\\\"", "#\n", ", ,", "()"];
+                let rec: &[u8] = r.pick(&RECS).as_bytes();
+                rec.iter().copied().cycle().take(len).collect()
+            };
             if r.chance(1, 2) {
                 let end = (at + len).min(bytes.len());
                 bytes.splice(at..end, block);
